@@ -14,3 +14,10 @@ def queries(tier):
 
 META = {"assumptions": sorted({a for m in _mods for a in getattr(m, "META", {}).get("assumptions", [])}),
         "outside": sorted({a for m in _mods for a in getattr(m, "META", {}).get("outside", [])})}
+
+MANIFEST = {
+ "level_text": 'Resource ledgers in the environment models (allocations, fds closed exactly once, mappings, IPC names, DIR streams, dl handles, pthread objects/keys) checked at the end of per-module create/use/free scripts of the real code, with symbolic system-call failures (<=2 per script) on every path.' + " Parts: " + ", ".join(PARTS) + ". Bounded model checking: every query is decided by the SAT/SMT back end for all symbolic choices inside the stated script/bound.",
+ "level_note": "Trusted: CBMC 6.11, the environment models named in evidence.assumptions (allocator ledger, kernel_ipc, kernel_sock, thread_emul, dir/dl models, clock model); scripts are representative call sequences, not all sequences; bounds per query in evidence.coverage.bounds. " + " | ".join(getattr(m, "MANIFEST", {}).get("level_note", "") for m in _mods)[:1500],
+ "technique": "CBMC bounded symbolic execution of the real units with symbolic fault index / fault schedule in the environment models",
+ "design_ref": "DESIGN.md §3 C20",
+}
